@@ -1,4 +1,5 @@
 import OsmVerif.Lemmas.Annotate
+import OsmVerif.Lemmas.AnnotateTs
 /-!
 # C11 — annotation reconstructs, for any time, the child versions that were current
 
@@ -182,6 +183,23 @@ theorem flatMap_if_all {l : List Nat} (f : Nat → Option Update) (m : Nat) (hal
     rw [ih (fun k' hk' => hall k' (by simp [hk']))]
     cases f k <;> simp
 
+theorem filter_eq_singleton (idxs : List Nat) (hnd : idxs.Nodup) (j : Nat) (hj : j ∈ idxs) :
+    idxs.filter (fun i => decide (i = j)) = [j] := by
+  induction idxs with
+  | nil => cases hj
+  | cons x xs ih =>
+    have hx := List.nodup_cons.mp hnd
+    by_cases e : x = j
+    · subst e
+      have : xs.filter (fun i => decide (i = x)) = [] := by
+        rw [List.filter_eq_nil_iff]; intro y hy; simp; intro e2; subst e2; exact hx.1 hy
+      simp [List.filter_cons, this]
+    · have hj' : j ∈ xs := by
+        rcases List.mem_cons.mp hj with h | h
+        · exact absurd h.symm e
+        · exact h
+      simp [List.filter_cons, e, ih hx.2 hj']
+
 /-- **time travel**: for every time `t` from the commit of this parent version up to (not including) the
     commit of the next one, the updates addressed to child slot `j` and stamped at or before `t` are exactly
     the child versions committed after the parent version and at or before `t`, oldest first — each stamped
@@ -228,21 +246,7 @@ theorem time_travel (o : Options) (parents : List ParentV) (fid : Nat) (cl : Lis
             funext i
             simp [(hf i).1, (hf i).2.2.2.2.2, hle]
           rw [hfun]
-          clear hfun
-          induction idxs with
-          | nil => cases hj
-          | cons x xs ih =>
-            have hx := List.nodup_cons.mp hnd
-            by_cases e : x = j
-            · subst e
-              have : xs.filter (fun i => decide (i = x)) = [] := by
-                rw [List.filter_eq_nil_iff]; intro y hy; simp; intro e2; subst e2; exact hx.1 hy
-              simp [List.filter_cons, this]
-            · have hj' : j ∈ xs := by
-                rcases List.mem_cons.mp hj with h | h
-                · exact absurd h.symm e
-                · exact h
-              simp [List.filter_cons, e, ih hx.2 hj']
+          exact filter_eq_singleton idxs hnd j hj
         rw [this]; rfl
       · simp only [hlt, if_false]
         rw [List.filter_eq_nil_iff]
@@ -315,6 +319,248 @@ theorem child_deleted_between_error (o : Options) (pidx fid : Nat) (cl : List Ch
   rw [rangeUpdates_ok o pidx fid cl idxs k start hbefore]
   simp [bind, Except.bind, hk, hinv]
 
+/-! ## the timestamp regime (no commit times): time travel once the grouping threshold has passed
+
+Before `osm.CommitInfoStart` there are no commit times: the child reference is chosen by `FindVisible`'s
+grouping heuristic (closest visible version within the threshold around the parent's time stamp, versions
+stamped after it only when they belong to the parent's changeset), so *which* version the reference carries in
+`[ts pᵢ, ts pᵢ + threshold)` is the heuristic's choice and nothing is claimed there. From `ts pᵢ + threshold`
+up to `ts pᵢ₊₁ - threshold` ("before the next version, less the grouping threshold") the claim is the same as
+in the commit-time regime, with time stamps as ground truth. -/
+
+/-- a child history as the datasource hands it over, in the timestamp regime -/
+structure TsTimeline (cl : List Child) : Prop where
+  regime : TsRegime cl
+  stamp : ∀ c ∈ cl, updateTimestamp c.ts c.committed = c.ts
+  sorted : TsSorted cl
+  indexed : WellIndexed cl
+
+def ParentTs (p : ParentV) : Prop := beforeStart p.committed = true
+
+theorem parentTimeTs {p : ParentV} (h : ParentTs p) (esp : Int) : timeThresholdParent p esp = p.ts + esp := by
+  unfold ParentTs at h
+  simp [timeThresholdParent, h]
+
+theorem countTs_mono (cl : List Child) {t u : Int} (h : t ≤ u) : countTs cl t ≤ countTs cl u := by
+  unfold countTs
+  induction cl with
+  | nil => simp
+  | cons c rest ih =>
+    simp only [List.filter_cons]
+    by_cases h1 : tsOf c ≤ t
+    · have : tsOf c ≤ u := by omega
+      simp [h1, this]; exact ih
+    · by_cases h2 : tsOf c ≤ u
+      · simp [h1, h2]; omega
+      · simp [h1, h2]; exact ih
+
+theorem countTs_le_countTsBefore (cl : List Child) {t u : Int} (h : t < u) : countTs cl t ≤ countTsBefore cl u := by
+  unfold countTs countTsBefore
+  induction cl with
+  | nil => simp
+  | cons c rest ih =>
+    simp only [List.filter_cons]
+    by_cases h1 : tsOf c ≤ t
+    · have : tsOf c < u := by omega
+      simp [h1, this]; exact ih
+    · by_cases h2 : tsOf c < u
+      · simp [h1, h2]; omega
+      · simp [h1, h2]; exact ih
+
+/-- **the version the child reference gets in the timestamp regime**: a visible version of the child stamped no
+    later than the parent's time stamp plus the threshold, and no later than the parent's time stamp itself
+    unless it belongs to the parent's changeset (forward grouping is same-changeset only) -/
+theorem child_choice_ts (cl : List Child) (tl : TsTimeline cl) (cid T eps : Int) (heps : 0 ≤ eps) (a : Child)
+    (h : findVisible cl cid T eps = some a) :
+    a ∈ cl ∧ a.visible = true ∧ a.ts ≤ T + eps ∧ (a.ts ≤ T ∨ a.changeset = cid) :=
+  findVisible_ts_sound cl cid T eps heps tl.regime a h
+
+/-- the update range reaches every version stamped before the next parent version less the threshold -/
+theorem nextVersion_covers_ts (cl : List Child) (tl : TsTimeline cl) (o : Options) (heps : 0 ≤ o.threshold)
+    (a : Child) (ha : a ∈ cl) (t : Int) (hat : a.ts ≤ t) (np : Option ParentV)
+    (hnp : match np with
+      | none => True
+      | some n => ParentTs n ∧ t < n.ts - o.threshold) :
+    countTs cl t ≤ nextVersionIndex (some a) cl np o := by
+  cases np with
+  | none =>
+    unfold nextVersionIndex
+    have hne : cl ≠ [] := by intro e; subst e; cases ha
+    cases hl : cl.getLast? with
+    | none => simp [List.getLast?_eq_none_iff] at hl; exact absurd hl hne
+    | some l =>
+      simp only
+      have hpos : cl[cl.length - 1]? = some l := by rw [← List.getLast?_eq_getElem?]; exact hl
+      have := tl.indexed _ _ hpos
+      have := countTs_le_length cl t
+      have : cl.length ≠ 0 := by intro e; exact hne (List.length_eq_zero_iff.mp e)
+      omega
+  | some n =>
+    obtain ⟨hn, htN⟩ := hnp
+    unfold nextVersionIndex
+    simp only [parentTimeTs hn]
+    cases hnx : findVisible cl n.changeset (n.ts + 0) o.threshold with
+    | some nx =>
+      simp only
+      obtain ⟨hmem, _, _, _⟩ := findVisible_ts_sound cl _ _ _ heps tl.regime nx hnx
+      have hpos := mem_position cl tl.indexed nx hmem
+      rw [timeThreshold_ts (tl.regime nx hmem)]
+      by_cases hlt : nx.ts + 0 < n.ts + -o.threshold
+      · simp only [hlt, if_true]
+        -- nx is stamped before the window: it is the last such version
+        unfold findVisible at hnx
+        rcases fvLoop_ts_before _ _ _ _ heps cl (-1) none nx tl.regime tl.sorted (wellIndexed_pairwise cl tl.indexed) hnx
+            (by omega) with ⟨e, _⟩ | ⟨_, hall⟩
+        · cases e
+        · apply Nat.le_of_not_lt
+          intro hh
+          have hlen := countTs_le_length cl t
+          have hk : nx.vindex + 1 < cl.length := by omega
+          have hx := List.getElem?_eq_getElem hk
+          have hle := (ts_le_iff_lt_count cl t tl.sorted _ _ hx).mpr hh
+          have hxi := tl.indexed _ _ hx
+          have hts : tsOf cl[nx.vindex + 1] = cl[nx.vindex + 1].ts := rfl
+          have := hall _ (List.getElem_mem hk) (by omega)
+          omega
+      · simp only [hlt, if_false]
+        apply Nat.le_of_not_lt
+        intro hh
+        have hle := (ts_le_iff_lt_count cl t tl.sorted _ _ hpos).mpr hh
+        have hts : tsOf nx = nx.ts := rfl
+        omega
+    | none =>
+      simp only
+      rw [timeThreshold_ts (tl.regime a ha)]
+      have hgt : n.ts + -o.threshold > a.ts + 0 := by omega
+      simp only [hgt, not_true_eq_false, if_false]
+      rw [versionBefore_ts cl _ tl.regime tl.sorted, ts_filter_lt_eq_take cl _ tl.sorted]
+      have hcb := countTs_le_countTsBefore cl (show t < n.ts + -o.threshold by omega)
+      have hbl := countTsBefore_le_length cl (n.ts + -o.threshold)
+      cases hg : (cl.take (countTsBefore cl (n.ts + -o.threshold))).getLast? with
+      | none =>
+        have h0 : cl.take (countTsBefore cl (n.ts + -o.threshold)) = [] := List.getLast?_eq_none_iff.mp hg
+        rcases List.take_eq_nil_iff.mp h0 with h | h
+        · simp; omega
+        · subst h; cases ha
+      | some b =>
+        simp only
+        rw [List.getLast?_eq_getElem?, List.length_take, Nat.min_eq_left hbl] at hg
+        have hb0 : countTsBefore cl (n.ts + -o.threshold) ≠ 0 := by
+          intro e; rw [e] at hg; simp at hg
+        rw [List.getElem?_take_of_lt (by omega)] at hg
+        have := tl.indexed _ _ hg
+        omega
+
+/-- splitting an ascending version range at `m` -/
+theorem range_split (f : Nat → Option Update) (start m : Nat) (hsm : start ≤ m) :
+    ∀ stop, m ≤ stop →
+      (versionRange start stop).flatMap (fun k => if k < m then (f k).toList else []) = (versionRange start m).filterMap f := by
+  intro stop
+  induction stop with
+  | zero =>
+    intro h
+    have : m = 0 := by omega
+    simp [versionRange, this]
+  | succ s ih =>
+    intro hcov
+    rw [versionRange_succ, List.flatMap_append]
+    by_cases hs : m ≤ s
+    · rw [ih hs]
+      by_cases h1 : start ≤ s
+      · have : ¬ s < m := by omega
+        simp [h1, this]
+      · simp [h1]
+    · have hs' : m = s + 1 := by omega
+      have hall : ∀ k ∈ versionRange start s, k < m := by
+        intro k hk; have := (mem_versionRange _ _ _).mp hk; omega
+      have e1 := flatMap_if_all f m hall
+      rw [e1, hs', versionRange_succ, List.filterMap_append]
+      by_cases h1 : start ≤ s
+      · have : s < s + 1 := by omega
+        simp only [h1, if_true, List.flatMap_cons, List.flatMap_nil, List.append_nil, this, List.filterMap_cons, List.filterMap_nil]
+        cases f s <;> simp
+      · simp [h1]
+
+/-- **time travel in the timestamp regime**: once the grouping threshold has passed (`ts pᵢ + threshold ≤ t`) and
+    up to the next parent version less the threshold (`t < ts pᵢ₊₁ - threshold`), the child reference `a` was
+    stamped at or before `t`, and the updates addressed to child slot `j` and stamped at or before `t` are exactly
+    the child versions after `a` stamped at or before `t`, oldest first, each stamped with its own time stamp —
+    so applying them leaves the last version stamped at or before `t`, the one that was current at `t` -/
+theorem time_travel_ts (o : Options) (heps : 0 ≤ o.threshold) (parents : List ParentV) (fid : Nat) (cl : List Child)
+    (tl : TsTimeline cl) (pidx : Nat) (idxs : List Nat) (hnd : idxs.Nodup) (p : ParentV) (hp : parents[pidx]? = some p)
+    (hvis : p.visible = true) (hP : ParentTs p) (a : Child)
+    (hch : findVisible cl p.changeset p.ts o.threshold = some a)
+    (hcons : ∀ k c, a.vindex + 1 ≤ k → k < nextVersionIndex (some a) cl parents[pidx + 1]? o →
+      cl[k]? = some c → c.visible = true)
+    (t : Int) (hPt : p.ts + o.threshold ≤ t)
+    (hnext : match parents[pidx + 1]? with
+      | none => True
+      | some n => ParentTs n ∧ t < n.ts - o.threshold)
+    (j : Nat) (hj : j ∈ idxs) :
+    ∃ e, groupEffect o parents fid cl pidx idxs = .ok (some e) ∧
+      e.sets = idxs.map (fun i => (i, a)) ∧
+      a.vindex + 1 ≤ countTs cl t ∧
+      e.updates.filter (fun u => decide (u.index = j ∧ u.ts ≤ t)) =
+        (versionRange (a.vindex + 1) (countTs cl t)).filterMap (fun k => cl[k]?.map (fun c => c.update j)) := by
+  obtain ⟨hmem, hav, hats, _⟩ := findVisible_ts_sound cl _ _ _ heps tl.regime a hch
+  have hpos := mem_position cl tl.indexed a hmem
+  have hat : a.ts ≤ t := by omega
+  have hstart : a.vindex + 1 ≤ countTs cl t := by
+    have := (ts_le_iff_lt_count cl t tl.sorted _ _ hpos).mp (by simpa [tsOf] using hat)
+    omega
+  have hge : groupEffect o parents fid cl pidx idxs = .ok (some
+      { parent := pidx, sets := idxs.map (fun i => (i, a)),
+        updates := (versionRange (a.vindex + 1) (nextVersionIndex (some a) cl parents[pidx + 1]? o)).flatMap
+          (versionUpdates cl idxs) }) := by
+    unfold groupEffect
+    have h0 : p.ts + 0 = p.ts := by omega
+    simp only [hp, hvis, not_true_eq_false, if_false, parentTimeTs hP, h0, hch,
+      Option.isNone_some, Bool.false_eq_true, false_and]
+    rw [rangeUpdates_ok o pidx fid cl idxs _ _ hcons]
+  refine ⟨_, hge, rfl, hstart, ?_⟩
+  simp only
+  have hcov := nextVersion_covers_ts cl tl o heps a hmem t hat parents[pidx + 1]? hnext
+  generalize nextVersionIndex (some a) cl parents[pidx + 1]? o = stop at hcov
+  have hver : ∀ k, (versionUpdates cl idxs k).filter (fun u => decide (u.index = j ∧ u.ts ≤ t)) =
+      if k < countTs cl t then (cl[k]?.map (fun c => c.update j)).toList else [] := by
+    intro k
+    unfold versionUpdates
+    cases hk : cl[k]? with
+    | none => simp
+    | some c =>
+      have hst := tl.stamp c (List.mem_of_getElem? hk)
+      have hf : ∀ i, (c.update i).index = i ∧ (c.update i).ts = c.ts := fun i => by simp [Child.update, hst]
+      have hiff := ts_le_iff_lt_count cl t tl.sorted k c hk
+      have hco : tsOf c = c.ts := rfl
+      rw [hco] at hiff
+      simp only [Option.map_some, Option.toList_some]
+      by_cases hlt : k < countTs cl t
+      · have hle : c.ts ≤ t := hiff.mpr hlt
+        simp only [hlt, if_true]
+        rw [List.filter_map]
+        have : idxs.filter ((fun u => decide (u.index = j ∧ u.ts ≤ t)) ∘ fun i => c.update i) = [j] := by
+          have hfun : ((fun u => decide (u.index = j ∧ u.ts ≤ t)) ∘ fun i => c.update i) = fun i => decide (i = j) := by
+            funext i
+            simp [(hf i).1, (hf i).2, hle]
+          rw [hfun]
+          exact filter_eq_singleton idxs hnd j hj
+        rw [this]; rfl
+      · simp only [hlt, if_false]
+        rw [List.filter_eq_nil_iff]
+        intro u hu
+        obtain ⟨i, _, rfl⟩ := List.mem_map.mp hu
+        have : ¬ c.ts ≤ t := fun h => hlt (hiff.mp h)
+        simp [(hf i).2, this]
+  rw [List.filter_flatMap]
+  simp only [hver]
+  exact range_split _ _ _ hstart stop hcov
+
+/-- the last element of "reference, then the applied updates" is the version at position `countTs t - 1`,
+    i.e. the last version stamped at or before `t` (`lastTs`) -/
+theorem time_travel_ts_last (cl : List Child) (tl : TsTimeline cl) (t : Int) (h0 : countTs cl t ≠ 0) :
+    lastTs cl t = cl[countTs cl t - 1]? := by
+  rw [lastTs_eq_getElem cl t tl.sorted]; simp [h0]
+
 /-! ## non-vacuity: a three-version node under two way versions -/
 def exCl : List Child := [
   ⟨1, 10, 0, 1400000000, some 1400000000, 1, 1, true, false⟩,
@@ -325,5 +571,26 @@ example : currentAt exCl 1400000050 = some ⟨1, 10, 0, 1400000000, some 1400000
 example : (match groupEffect ⟨1800, false, false, 0⟩ exParents 7 exCl 0 [0] with
     | .ok (some e) => e.updates.map (·.version)
     | _ => []) = [2] := by decide
+
+/-! non-vacuity in the timestamp regime: 2009 data, threshold 30 min; the node's second version belongs to the
+way's changeset and follows it by 5 s (grouped forward), the third comes an hour later -/
+def exTs : List Child := [
+  ⟨1, 10, 0, 1250000000, none, 1, 1, true, false⟩,
+  ⟨2, 11, 1, 1250001005, none, 2, 2, true, false⟩,
+  ⟨3, 12, 2, 1250004600, none, 3, 3, true, false⟩]
+def exTsParents : List ParentV := [⟨11, true, 1250001000, none, [(7, false)]⟩, ⟨13, true, 1250010000, none, [(7, false)]⟩]
+example : TsTimeline exTs := by
+  refine ⟨by unfold TsRegime; decide, by decide, by unfold TsSorted; decide, ?_⟩
+  intro k c h
+  match k with
+  | 0 => simp [exTs] at h; subst h; rfl
+  | 1 => simp [exTs] at h; subst h; rfl
+  | 2 => simp [exTs] at h; subst h; rfl
+  | k + 3 => simp [exTs] at h
+example : findVisible exTs 11 1250001000 1800 = some ⟨2, 11, 1, 1250001005, none, 2, 2, true, false⟩ := by decide
+example : (match groupEffect ⟨1800, false, false, 0⟩ exTsParents 7 exTs 0 [0] with
+    | .ok (some e) => e.updates.map (fun u => (u.version, u.ts))
+    | _ => []) = [(3, 1250004600)] := by decide
+example : countTs exTs 1250005000 = 3 := by decide
 
 end OsmVerif.Props.C11
